@@ -16,24 +16,25 @@ from lib_table import Bundle
 
 PROPERTY = "C07"
 
-# CODE VARIANT FLAGS — the value that matches TODAY's rich (see Model/Table.lean `Flags`)
-# 1 = `_render` emits `get_row(widths, "mid") * leading` as ONE line (F16); 0 = one separator line per leading
+# CODE VARIANT FLAGS — the value that matches /repo as it is now (see Model/Table.lean `Flags`): 1 = rich 9.10.0 as found,
+# 0 = repaired; all six defects are repaired in /repo (fixes dd342b5, c798468, b5d172f, 1d61bac, ab98098, f955c6c)
+# 1 = `_render` emits `get_row(widths, "mid") * leading` as ONE line (F16); 0 = one separator line per leading (fix dd342b5)
 LEADING_REPEAT = int(__import__("os").environ.get("VERIF_C07_LEADING_REPEAT", "0"))
-# 1 = `_calculate_column_widths` caps the pad target by `min_width - extra` even when the table expands; 0 = repaired
+# 1 = `_calculate_column_widths` caps the pad target by `min_width - extra` even when the table expands; 0 = repaired (fix c798468)
 MIN_WIDTH_CAPS_EXPAND = int(__import__("os").environ.get("VERIF_C07_MIN_WIDTH_CAPS_EXPAND", "0"))
-# 1 = with ratio columns the width reserved for the other columns is sum(_range.maximum), not sum(_range.maximum or 1); 0 = repaired
+# 1 = with ratio columns the width reserved for the other columns is sum(_range.maximum), not sum(_range.maximum or 1); 0 = repaired (fix b5d172f)
 FIXED_RAW_MAXIMUM = int(__import__("os").environ.get("VERIF_C07_FIXED_RAW_MAXIMUM", "0"))
 # 1 = `_calculate_column_widths` of a table WITHOUT columns reaches `ratio_distribute(.., [])` and its `assert total_ratio > 0`
 #     (Table(expand=True) / Table(width=10) / Table(min_width=10) raise AssertionError); 0 = `return []` at once
-#     (pending_fixes/C14-table-no-columns.diff)
+#     (fix 1d61bac = pending_fixes/C14-table-no-columns.diff)
 NO_COLUMNS_ASSERTS = int(__import__("os").environ.get("VERIF_C07_NO_COLUMNS_ASSERTS", "0"))
 # 1 = flexible widths are used as ratio_distribute returns them (a trailing ratio=0 column gets what is left: negative when there
 #     is no room, so widths can be negative / sum to 0 and the final ratio_distribute asserts); 0 = clamped with max(0, width)
-#     (pending_fixes/C14-table-flexible-width-nonnegative.diff)
+#     (fix ab98098 = pending_fixes/C14-table-flexible-width-nonnegative.diff)
 FLEX_NEGATIVE = int(__import__("os").environ.get("VERIF_C07_FLEX_NEGATIVE", "0"))
 # 1 = `table_width` is not recomputed after the collapse block re-measures the columns, so an expanding table whose columns shrank
 #     on the re-measure is never padded back to max_width; 0 = `table_width = sum(widths)` after the re-measure
-#     (pending_fixes/C07-table-expand-stale-width.diff)
+#     (fix f955c6c = pending_fixes/C07-table-expand-stale-width.diff)
 STALE_TABLE_WIDTH = int(__import__("os").environ.get("VERIF_C07_STALE_TABLE_WIDTH", "0"))
 FLAGS = (LEADING_REPEAT, MIN_WIDTH_CAPS_EXPAND, FIXED_RAW_MAXIMUM, NO_COLUMNS_ASSERTS, FLEX_NEGATIVE, STALE_TABLE_WIDTH)
 
@@ -435,13 +436,15 @@ MANIFEST = {
     "appear row by row, header / insertion order / footer, each on lines of its own); fold_cells_in_column + every_cell_line_shown (on a "
     "row's line k, column j's span - at a proved cell offset and width - holds exactly line k of that cell's own rendering, verbatim, or "
     "blanks); plus the arithmetic core (ratio_distribute sums to total, ratio_reduce bounds, _collapse_widths termination and "
-    "post-condition).  calc_widths_total / table_render_total / rich_measure_total (with the two assertion defects repaired, "
+    "post-condition).  calc_widths_total / table_render_total / rich_measure_total (with the two assertion defects repaired - fixes 1d61bac, ab98098, in /repo now - "
     "`_calculate_column_widths`, `__rich_console__` and `__rich_measure__` never reach `assert total_ratio > 0` for ANY table with "
     "non-negative options and cells measuring >= 0 - zero columns, ratio 0 columns, any available width included).  "
-    "Witnesses by `decide`: old_no_columns_asserts, old_flex_negative_asserts, old_table_rect_fails (F16, leading >= 2), old_expand_exact_fails (expand + min_width), "
-    "old_expand_ratio_fails (ratio column beside a zero-width column).  "
+    "Witnesses by `decide` for the six defects of rich 9.10.0 as found: old_table_rect_fails (F16, leading >= 2), old_expand_exact_fails (expand + min_width), "
+    "old_expand_ratio_fails (ratio column beside a zero-width column) - at Flags.today; old_expand_stale_width_fails (stale table_width after the "
+    "re-measure), old_no_columns_asserts, old_flex_negative_asserts - at Flags.repaired.  Flags.repaired repairs the first three defects only "
+    "(leading, min_width, raw maximum); Flags.allRepaired repairs all six and is the variant /repo contains now.  "
     "Tie: the model's column widths and rendered lines equal `_calculate_column_widths` / `Console.render(table)` character for "
-    "character on ~2.6k (quick) / ~50k (thorough) generated tables (1..6 columns, 0..8 rows, all table and column options, nested "
+    "character on ~4k (quick; evidence/C07.json: 4,067 tables rendered and 4,067 measured) / ~50k (thorough) generated tables (1..6 columns, 0..8 rows, all table and column options, nested "
     "Panel/Table/Padding cells, wide and zero-width characters, ragged and add_row-created columns, nested folding tables, over-long wide words; rendered WITH varying incoming ConsoleOptions "
     "(no_wrap / justify / overflow / highlight), the cell options being derived from the documented rule 'the column's own setting wins', "
     "title / caption inheriting overflow / no_wrap) with each real cell's oracle "
@@ -458,8 +461,9 @@ MANIFEST = {
     "Tables without columns are compared (widths, lines, measure, the AssertionError) but are outside the rectangle statement.  Domain of the direct evaluation: 'no negative column width' everywhere; the rest at available width >= structural "
     "minimum (1 cell per free column, width/min_width + padding otherwise), exactness / positivity with ratio None or >= 1.  Trusted: Lean kernel, axioms "
     "propext/Classical.choice/Quot.sound, translators harness/tables.py + harness/gen/table_boxes.py, the correspondence harness.  "
-    "Code-variant flags in this file match today's rich: the three defects (F16 table-leading-multi, table-expand-min-width, "
-    "table-expand-ratio-zero-width-column) print VIOLATION until pending_fixes/C07-*.diff are applied and the flags flipped "
-    "(env VERIF_C07_LEADING_REPEAT / VERIF_C07_MIN_WIDTH_CAPS_EXPAND / VERIF_C07_FIXED_RAW_MAXIMUM = 0 override them).",
+    "Code-variant flags in this file match /repo as it is now: all six defects of rich 9.10.0 as found (F16 table-leading-multi dd342b5, "
+    "table-expand-min-width c798468, table-expand-ratio-zero-width-column b5d172f, table-no-columns 1d61bac, flexible-width-negative ab98098, "
+    "table-expand-stale-width f955c6c) are repaired there and every flag is 0; a regression of a fix shows as a correspondence mismatch and a "
+    "direct-evaluation failure (the env variables VERIF_C07_<FLAG> override a flag for a run against another checkout).",
     "design_ref": "DESIGN.md section 7 (C01, C07, C08, C09 - layout), section 8 F16; lean/RichModel/Model/TABLE_API.md",
 }
